@@ -6,6 +6,7 @@
   Same adversary model as C01 (`RecvOp`, `run`, `Genuine`), on a channel created unordered.
 -/
 import RenetVerif.Lemmas.DataPath
+import RenetVerif.Props.C01
 namespace RenetVerif.C02
 open RenetVerif C DataPath
 
@@ -93,13 +94,14 @@ theorem complete_sliced_is_queued (L : List Bytes) (r : RecvRel) (sl : Slice) (m
 
 /-! #### a concrete adversarial schedule -/
 namespace Ex
-def m0 : Bytes := List.replicate 1200 1 ++ List.replicate 1200 2 ++ List.replicate 600 3
-def m1 : Bytes := [1, 2, 3, 4, 5]
+/- `m0` (3000 bytes, slices `s0 s1 s2`) and `m1` as in `C01.Ex` -/
+abbrev m0 : Bytes := C01.Ex.m0
+abbrev m1 : Bytes := C01.Ex.m1
+abbrev s0 : Slice := C01.Ex.s0
+abbrev s1 : Slice := C01.Ex.s1
+abbrev s2 : Slice := C01.Ex.s2
 def m2 : Bytes := [9]
 def L : List Bytes := [m0, m1, m2]
-def s0 : Slice := ⟨0, 0, 3, List.replicate 1200 1⟩
-def s1 : Slice := ⟨0, 1, 3, List.replicate 1200 2⟩
-def s2 : Slice := ⟨0, 2, 3, List.replicate 600 3⟩
 /-- message 2 and 1 overtake the sliced message 0 and are obtained first; everything is duplicated
     before and after having been obtained -/
 def ops : List RecvOp :=
@@ -107,11 +109,7 @@ def ops : List RecvOp :=
    .slice s1, .msg 1 m1, .slice s1, .recv, .msg 0 m0, .slice s2, .recv]
 
 theorem genuine : ∀ op ∈ ops, Genuine L op := by
-  have g : ∀ sl ∈ [s0, s1, s2], GenuineSlice L sl := by
-    intro sl h
-    simp only [List.mem_cons, List.not_mem_nil, or_false] at h
-    rcases h with rfl | rfl | rfl <;>
-      exact ⟨m0, rfl, by decide +kernel, by decide +kernel, by decide +kernel, by decide +kernel⟩
+  have g := C01.Ex.gsl L rfl
   intro op h
   simp only [ops, List.mem_cons, List.not_mem_nil, or_false] at h
   rcases h with rfl | rfl | rfl | rfl | rfl | rfl | rfl | rfl | rfl | rfl | rfl | rfl | rfl | rfl | rfl | rfl | rfl <;>
@@ -145,8 +143,8 @@ example : ∃ r' m, ({ r1 with messages := [(2, m2)], received := [2], mem := 36
   no_head_of_line _ (by decide) (by decide) (by decide)
 /-- slice 1 completes message 0, which is queued at once although messages 1, 2 are unseen -/
 example : ∃ r', r1.processSlice s1 = .ok r' ∧ SMap.find? r'.messages 0 = some m0 :=
-  complete_sliced_is_queued L r1 s1 m0 _ rfl r1_slicesOK rfl (by decide +kernel) (by decide +kernel)
-    (by decide +kernel) (by decide +kernel) rfl (by decide +kernel) (by decide +kernel) (by decide +kernel)
+  complete_sliced_is_queued L r1 s1 m0 _ rfl r1_slicesOK rfl C01.Ex.m0_len C01.Ex.m0_n
+    (by decide) C01.Ex.p1 rfl (by decide +kernel) (by decide +kernel) (by decide +kernel)
     (by decide +kernel) (by decide +kernel) (by decide +kernel)
 end Ex
 
